@@ -68,8 +68,9 @@ def main(argv=None):
     for v in S.VERSIONS:
         lib = hl7apy.load_library(v)
         ec = S.default_ec(v)
-        for _ in range(nlines):
-            text = line(rng, lib, ec, messy=rng.random() < .3)
+        corpus = ['QPD|a||q||beyond|b'] if v == '2.5' else []     # witness of the recorded finding F14 runs first
+        for it in range(nlines + len(corpus)):
+            text = corpus[it] if it < len(corpus) else line(rng, lib, ec, messy=rng.random() < .3)
             dist['segments'] += 1
             cs = S.case_of(text, v, S.STRICT, ec)
             ct = S.case_of(text, v, S.TOLERANT, ec)
@@ -132,7 +133,7 @@ def main(argv=None):
                 continue
             # sometimes disturb the order / add a Z segment (F18 territory)
             disturbed = False
-            if rng.random() < .3 and len(lines) > 2:
+            if (rng.random() < .3 or m == mnames[0]) and len(lines) > 2:     # first structure of a version: always (F18)
                 disturbed = True
                 if rng.random() < .5:
                     lines.insert(rng.randint(1, len(lines)), 'ZZZ|1')
